@@ -21,6 +21,8 @@ def check(run):
     for k in ["rt:composeinfo.Variants:0"] + (["rt:composeinfo.Variants:1"] if run.tier == "thorough" else []):
         verify.verify(run, c.E, c.contracts[k], crosscheck=False)
     verify.verify(run, c.E, c.contracts["canon:composeinfo.Variant"], crosscheck=False)
+    # the top-level writer with ANY number of variants: each is written through its own writer into the fresh section (witness rule)
+    verify.verify(run, c.E, c.contracts["ser:composeinfo.Variants:any"], crosscheck=False)
     for k in ("ser:common.Header", "de:common.Header", "meth:composeinfo.ComposeInfo.serialize",
               "meth:composeinfo.ComposeInfo.deserialize", "fn:common.MetadataBase.build_file.json_args",
               "ser:composeinfo.VariantPaths", "rt:composeinfo.VariantPaths"):
